@@ -12,6 +12,12 @@ import logging
 import re
 
 _STATUS = re.compile(rb"^HTTP/1\.[01] (\d{3})")
+TIMEOUT = 120  # seconds; client and server share one event loop, so this only expires on a starved machine
+
+
+class DriverTimeout(RuntimeError):
+    """The server did not answer in time: a machinery failure (exit 2), never an observation."""
+
 
 
 class Response:
@@ -90,7 +96,7 @@ class WebDriver:
         return self.loop.run_until_complete(coro)
 
     # --- client --------------------------------------------------------------------------------------
-    def request(self, method: str, target: str, headers=(), body: bytes = b"", ws_wait: float = 0.05,
+    def request(self, method: str, target: str, headers=(), body: bytes = b"", ws_wait: float = 0.25,
                 after_upgrade=None) -> Response:
         return self.loop.run_until_complete(self._request(method, target, headers, body, ws_wait, after_upgrade))
 
@@ -108,15 +114,17 @@ class WebDriver:
             lines.append(f"Content-Length: {len(body)}")
         raw = ("\r\n".join(lines) + "\r\n\r\n").encode("utf-8", "surrogateescape") + body
         try:
-            r, w = await asyncio.wait_for(asyncio.open_connection("127.0.0.1", self.port), 5)
-        except Exception:
+            r, w = await asyncio.wait_for(asyncio.open_connection("127.0.0.1", self.port), TIMEOUT)
+        except asyncio.TimeoutError:
+            raise DriverTimeout("connect")
+        except OSError:
             return Response(0, [], b"")
         try:
             w.write(raw)
             await w.drain()
             buf = b""
             while b"\r\n\r\n" not in buf:
-                chunk = await asyncio.wait_for(r.read(65536), 5)
+                chunk = await asyncio.wait_for(r.read(65536), TIMEOUT)
                 if not chunk:
                     break
                 buf += chunk
@@ -164,11 +172,11 @@ class WebDriver:
 
                 try:
                     while not complete():
-                        chunk = await asyncio.wait_for(r.read(1 << 20), 2)
+                        chunk = await asyncio.wait_for(r.read(1 << 20), TIMEOUT)
                         if not chunk:
                             break
                         rest += chunk
-                except (asyncio.TimeoutError, ConnectionError):
+                except ConnectionError:
                     pass
                 if nobody:
                     rest = b""
@@ -176,7 +184,9 @@ class WebDriver:
             if any(k == "transfer-encoding" and "chunked" in v for k, v in hdrs):
                 body_out = _dechunk(rest)
             return Response(status, hdrs, body_out, after)
-        except (asyncio.TimeoutError, ConnectionError):
+        except asyncio.TimeoutError:
+            raise DriverTimeout(f"{method} {target}")
+        except ConnectionError:
             return Response(0, [], b"")
         finally:
             try:
